@@ -111,6 +111,16 @@ def match_known(finding, known):
     return None
 
 
+MULTI_ALLOC_MARKS = ("n_bx_ow", "n_rt_ow", "n_bx_po", "bx_pm", "bx_pr", "rt_pm", "rf_pr", "ow_pm", "dupw_", "_owned", "na_dbgpanic",
+                     "drop_boxed_reject", "drop_retry_reject")
+
+
+def multi_alloc(entry):
+    """entries whose locks live in more than one allocation: the order of raw operations may legitimately depend on
+    the relative addresses of those allocations, which differ between engines; their traces are compared as multisets"""
+    return any(m in entry for m in MULTI_ALLOC_MARKS)
+
+
 def _fault_sig(events):
     ph = 0
     for e in events or []:
@@ -178,7 +188,7 @@ def run_mirsym_property(pid, tier, seed, harness_files, relevant_codes, outcome_
         mismatches = []
         for entry, s in samples:
             nat = run.native(entry, s["inputs"])
-            if entry.endswith("_uo"):
+            if entry.endswith("_uo") or multi_alloc(entry):
                 # the order of raw operations depends on the relative addresses of separate allocations
                 ok, why = engine.compare_trace(sorted(s["events"]), sorted(nat["events"]))
             else:
